@@ -870,6 +870,16 @@ int __wrap_close(int fd)
 	return 0;
 }
 
+/* descriptor flags as the library left them: bit 0 = O_NONBLOCK, bit 1 = FD_CLOEXEC; -1 = not an open virtual fd */
+int vk_fd_flags(int fd)
+{
+	struct vk_fd *v = vk_is_virtual(fd) ? vk_open(fd) : NULL;
+
+	if (v == NULL)
+		return -1;
+	return (v->nonblock ? 1 : 0) | (v->cloexec ? 2 : 0);
+}
+
 int __wrap_fcntl(int fd, int cmd, ...)
 {
 	va_list ap;
